@@ -106,6 +106,8 @@ def convert_dump(text):
             continue
         if t[0] == 'PHASE':
             cur = {'name': t[1], 'lines': [], 'nodes': [], 'paths': []}
+        elif t[0] in ('N', 'P') and cur is not None and any(w in ('nan', '-nan', 'inf', '-inf') for w in t):
+            cur['nonfinite'] = True
         elif t[0] == 'N' and cur is not None:
             vals = [hexq(x) for x in t[2:6]]
             cur['nodes'].append([float(v) for v in vals])
@@ -136,6 +138,281 @@ def convert_dump(text):
 
 CODES = {1: 'node rectangles overlap', 2: 'path endpoints changed / not at the node centres',
          3: 'a bend is not on a corner of its node or turns the wrong way round it', 4: 'a segment passes through the interior of a foreign node'}
+
+
+# ------------------------------------------------------------------------------------------ explicit scene families
+SCENE_CORPUS = os.path.join(C.VERIF, 'corpus', 'c13_scenes.txt')
+
+
+def split_scene_output(out):
+    """harness `scenes` output -> {tag: (phases, exc, status)}"""
+    res, tag, buf = {}, None, []
+    for line in out.split('\n'):
+        if line.startswith('SCENE '):
+            tag, buf = line[6:].strip(), []
+        elif line.startswith('ENDSCENE ') and tag is not None:
+            phases, exc, _ = convert_dump('\n'.join(buf))
+            res[tag] = (phases, exc, ' '.join(line.split()[2:]))
+            tag = None
+        elif tag is not None:
+            buf.append(line)
+    return res
+
+
+def check_phases(spec_exe, groups):
+    """groups: list of phase lists; one driver call; returns per group the list of driver rows"""
+    din, cnt = ['EPS 1 -20'], 0
+    for phases in groups:
+        for p in phases:
+            din += p['lines']; cnt += 1
+    rc, lout, lerr, dt = C.sh([spec_exe, 'layout'], input='\n'.join(din) + '\n', timeout=900)
+    ll = [l.split() for l in lout.split('\n') if l]
+    if len(ll) != cnt:
+        return None, lerr[-800:]
+    out, k = [], 0
+    for phases in groups:
+        out.append(ll[k:k + len(phases)]); k += len(phases)
+    return out, None
+
+
+def judge_phases(phases, rows):
+    """first phase (after `before`) that the verified checker rejects -> (index, problems); `*.atexc` dumps are informational"""
+    for k in range(1, len(phases)):
+        row, pa = rows[k], phases[k]
+        if pa['name'].endswith('.atexc'):
+            continue
+        bad = []
+        if pa.get('nonfinite'):
+            bad.append({'kind': 'non-finite coordinate'})
+        if row[1] != '0':
+            bad.append({'kind': CODES[1], 'code': 1})
+        for p, code in zip(pa['paths'], row[2:]):
+            if code != '0':
+                bad.append({'kind': CODES[int(code)], 'code': int(code), 'edge': p['edge'], 'src': p['src'], 'dst': p['dst'], 'points_node_kind_x_y': p['points']})
+        for p0, p1 in zip(phases[0]['paths'], pa['paths']):
+            if (p0['src'], p0['dst']) != (p1['src'], p1['dst']) or p1['points'][0][0] != p0['points'][0][0] or p1['points'][-1][0] != p0['points'][-1][0]:
+                bad.append({'kind': 'edge no longer joins its original nodes', 'edge': p1['edge']})
+        if len(pa['paths']) != len(phases[0]['paths']) or len(pa['nodes']) != len(phases[0]['nodes']):
+            bad.append({'kind': 'nodes / edges lost'})
+        if bad:
+            return k, bad
+    return None, []
+
+
+def assert_fingerprint(exc):
+    """EXC <expr> | <file>:<line> | <function> | op<k>  ->  assert:<file>:<expr>"""
+    f = [x.strip() for x in exc[4:].split('|')]
+    if len(f) >= 2 and ':' in f[1]:
+        fp = 'assert:%s:%s' % (os.path.basename(f[1].rsplit(':', 1)[0]), f[0].replace(' ', '_'))
+        if f[0] in ('false', '0') and len(f) >= 3:       # COLA_ASSERT(false): name the function that gave up
+            fn = f[2].split('(')[0].split()[-1] if f[2] != '?' else 'line' + f[1].rsplit(':', 1)[1]
+            fp += '@' + fn.replace('topology::', '')
+        return fp
+    return 'exception:' + f[0]
+
+
+def run_scene_families(res, tier, rng, exe, spec_exe):
+    from checks import c13lib as L
+    nq = (400, 300, 400) if tier == 'quick' else (3000, 2000, 3000)
+    scenes = []
+    if os.path.exists(SCENE_CORPUS):
+        scenes += [dict(sc, corpus=True) for sc in L.parse_scripts(open(SCENE_CORPUS).read())]
+    scenes += L.gen_scenes(rng, *nq)
+    st = {'scenes': len(scenes), 'by_family': {}, 'start_invalid': 0, 'checked_states': 0, 'ops': {'MOVE0': 0, 'MOVE1': 0, 'RESIZE': 0, 'LAYOUT': 0},
+          'bends_created_or_removed': 0, 'assertions': {}, 'ndebug_runs': 0, 'known': {}, 'wall_s': 0.0}
+    viol = 0
+    inp = ''.join(L.script(sc) for sc in scenes)
+    rc, out, err, dt = C.sh([exe, 'scenes', '20'], input=inp, timeout=1800)
+    st['wall_s'] += dt
+    got = split_scene_output(out)
+    if rc != 0 or len(got) != len(scenes):
+        res.violation({'what': 'harness c13_topo scenes failed', 'rc': rc, 'scenes': len(scenes), 'parsed': len(got), 'stderr': err[-1500:]}, no_input=True)
+        return st, 1
+    rows, e = check_phases(spec_exe, [got[sc['tag']][0] for sc in scenes])
+    if rows is None:
+        res.violation({'what': 'layout checker driver failed on the scene families', 'stderr': e}, no_input=True)
+        return st, 1
+    failing = []
+    for sc, rw in zip(scenes, rows):
+        phases, exc, status = got[sc['tag']]
+        fam = sc['family']
+        fs = st['by_family'].setdefault(fam, {'scenes': 0, 'failed': 0})
+        if not phases or rw[0][1] != '0' or any(x != '0' for x in rw[0][2:]):
+            st['start_invalid'] += 1
+            continue
+        fs['scenes'] += 1
+        for op in sc['ops']:
+            st['ops'][op[0] + (str(op[1]) if op[0] == 'MOVE' else '')] += 1
+        st['checked_states'] += len(phases) - 1
+        k, bad = judge_phases(phases, rw)
+        if status != 'ok' and not exc:
+            exc = 'EXC harness child ended with ' + status
+        if k is None and not exc:
+            b0 = sum(len(p['points']) for p in phases[0]['paths'])
+            st['bends_created_or_removed'] += sum(1 for pa in phases[1:] if sum(len(p['points']) for p in pa['paths']) != b0)
+            continue
+        fs['failed'] += 1
+        failing.append((sc, phases, exc, k, bad))
+    # the failing scenes again in an NDEBUG build (library assertions compiled out): exhibits the violated state itself
+    nd = {}
+    if failing:
+        try:
+            exe_nd = build_harness_retry('c13_topo', LIBS, 'ndebug')
+            rc, out2, err2, dt = C.sh([exe_nd, 'scenes', '20'], input=''.join(L.script(f[0]) for f in failing), timeout=1800)
+            st['wall_s'] += dt
+            got2 = split_scene_output(out2)
+            order = [f[0]['tag'] for f in failing if f[0]['tag'] in got2]
+            rows2, e2 = check_phases(spec_exe, [got2[t][0] for t in order])
+            for t, rw in zip(order, rows2 or []):
+                ph2, exc2, status2 = got2[t]
+                k2, bad2 = judge_phases(ph2, rw) if ph2 else (None, [])
+                nd[t] = {'status': status2, 'exception': exc2, 'phases': len(ph2), 'rejected_phase': ph2[k2]['name'] if k2 else None, 'problems': bad2[:4],
+                         'rejected_state': {'nodes_x0y0x1y1': ph2[k2]['nodes'], 'paths': ph2[k2]['paths']} if k2 else None}
+                st['ndebug_runs'] += 1
+        except RuntimeError as ex:
+            nd = {'_build_error': str(ex)[-600:]}
+    state = lambda ph: {'phase': ph['name'], 'nodes_x0y0x1y1': ph['nodes'], 'paths': ph['paths']}
+    n_transient = 0
+    residual = []
+    for sc, phases, exc, k, bad in failing:
+        fp = assert_fingerprint(exc) if exc else None
+        if fp:
+            st['assertions'][fp] = st['assertions'].get(fp, 0) + 1
+        ndr = nd.get(sc['tag'])
+        last_ok = phases[(k - 1) if k else max(i for i, p in enumerate(phases) if not p['name'].endswith('.atexc'))]
+        obj = {'what': ('the verified checker rejects a state reached by libtopology' if k else
+                        'an invariant assertion of libtopology fired (reported as a violation of the property: the library itself found '
+                        'a non-convex bend / a segment through a node / an infeasible constraint); see ndebug_run for the same scene in '
+                        'a build without assertions, judged by the verified checker'),
+               'family': sc['family'], 'symmetry_swap_flipx_flipy': sc.get('sym'), 'assertion': exc, 'assertion_fingerprint': fp,
+               'problems': bad[:4], 'rejected_state': state(phases[k]) if k else None, 'last_valid_state': state(last_ok),
+               'ndebug_run': ndr, 'scene_script': L.script(sc),
+               'replay': 'printf \'%s\' | build/bin/c13_topo-exc-* scenes     (and c13_topo-ndebug-*)' % L.script(sc).replace('\n', '\\n')}
+        kf = classify_scene_failure(sc, phases, exc, k, bad, ndr)
+        if kf == 'rare_segment_through_node:transient':
+            n_transient += 1
+            if n_transient > 2 + len(scenes) // 500:
+                kf = None
+                obj['what'] += ' (more than 2 + scenes/500 transient end-of-solve() intersections: above the rate of the known rare finding)'
+        if kf:
+            st['known'][kf] = st['known'].get(kf, 0) + 1
+            if res.violation(obj, fingerprint=kf):
+                viol += 1
+        else:
+            residual.append((obj, fp if (fp and not k) else None))
+    # un-triaged rare failures of the lattice families on the unchanged tree: about 0.2% of the scenes (6 of 11000 over ten seeds, at most 3 in
+    # one quick run; diverse: a bend turning the wrong way after a resize inside a layout run, an end segment through a node in the shadow of its end
+    # node, ...; reproducers in corpus/c13_residual_scenes.txt).  A systematic failure shows in a large fraction of a family (the two seeded
+    # changes: 13% and 28% of all scenes).  At most RESID_MAX unclassified scenes are recorded under the rate-limited fingerprint, more is a violation.
+    RESID_MAX = 2 + len(scenes) // 300
+    st['residual_unclassified'] = len(residual)
+    st['residual_cap'] = RESID_MAX
+    st['residual_scenes'] = [o['scene_script'] for o, f in residual][:6]
+    for obj, f in residual:
+        if len(residual) <= RESID_MAX and os.environ.get('C13_NO_RESIDUAL') is None:
+            if res.violation(obj, fingerprint='lattice_degenerate_residual'):
+                viol += 1
+        else:
+            if len(residual) > RESID_MAX:
+                obj['what'] += ' (%d unclassified failing scenes of %d: above the rate of the un-triaged rare failures of the unchanged tree)' % (len(residual), len(scenes))
+            if viol < int(os.environ.get("C13_MAXV", "4")):
+                res.violation(obj, fingerprint=f)
+            viol += 1
+    st['wall_s'] = round(st['wall_s'], 1)
+    return st, viol
+
+
+def corridor_segments(ph):
+    """segments of the state's paths that join bend points on corners of two DIFFERENT nodes and are axis-parallel (both points on one
+    lattice line shared by a side of each node): the path runs through a zero-width corridor between two abutting nodes, or turns
+    from one node's corner to the other's along their common side line.  Returns [(edge, axes, a, b)]: axes = set of the axes the
+    segment is parallel to (0: horizontal, 1: vertical; both for coincident bend points)."""
+    out = []
+    for p in ph['paths']:
+        pts = p['points']
+        for a, b in zip(pts, pts[1:]):
+            if a[1] == 4 or b[1] == 4 or a[0] == b[0]:
+                continue
+            ax = set()
+            if abs(a[2] - b[2]) <= 1e-7: ax.add(1)
+            if abs(a[3] - b[3]) <= 1e-7: ax.add(0)
+            if ax:
+                out.append((p['edge'], ax, a, b))
+    return out
+
+
+def through_pairs(state):
+    """(segment, node) pairs of a state in which the segment passes through the node's interior (shrunk by 1e-6), the node not
+    being one of the segment's own two nodes -> [(a, b, node index)]"""
+    from checks import c13lib as L
+    out = []
+    for p in state['paths']:
+        pts = p['points']
+        for a, b in zip(pts, pts[1:]):
+            for i, r in enumerate(state['nodes_x0y0x1y1']):
+                if i in (a[0], b[0]):
+                    continue
+                rr = (r[0] + 1e-6, r[2] - 1e-6, r[1] + 1e-6, r[3] - 1e-6)
+                if not L.seg_clear_open((a[2], a[3]), (b[2], b[3]), rr):
+                    out.append((a, b, i))
+    return out
+
+
+def rects_touch(r, s, e=1e-2):      # resize leaves gaps of about 1e-3 (slivers of width 1e-4) between nodes it pushed apart
+    return not (r[2] < s[0] - e or s[2] < r[0] - e or r[3] < s[1] - e or s[3] < r[1] - e)
+
+
+def classify_scene_failure(sc, phases, exc, k, bad, ndr):
+    """classifier predicates of the two known findings of the lattice / resize families (evaluated on the failing case):
+    lattice_corridor_tie: the state BEFORE the failing operation (checker-valid) already contains a path segment between corners of two
+      different nodes that lies on a lattice line shared by both (zero-width corridor, possibly of length 0) and is parallel to an axis in
+      which the failing operation moves nodes; when the corridor closes / the nodes slide along each other, bend points coincide and several
+      topology constraints reach slack 0 at exactly the same alpha.  A failure inside an operation that starts from a state without such a
+      segment is never classified.
+    rare_segment_through_node:end_node_neighbour: the failure is exactly `segment through a foreign node` and, in the violated state (NDEBUG
+      run), every such segment is an END segment (one point is the CENTRE of the edge's end node E) and the node it passes through touches E."""
+    names = [p['name'] for p in phases]
+    if k:
+        opname = phases[k]['name'].split('.')[0]
+    elif exc and '| op' in exc:
+        opname = 'op' + exc.rsplit('| op', 1)[1].strip()
+    else:
+        return None
+    try:
+        opi = int(opname[2:])
+    except ValueError:
+        return None
+    if opi < 1 or opi > len(sc['ops']):
+        return None
+    op = sc['ops'][opi - 1]
+    # (a) segment through a node that touches the end node of that (end) segment
+    only_through = (bad and all(b.get('code') == 4 for b in bad)) or (not bad and exc and 'NoIntersection' in exc)
+    if only_through and ndr and ndr.get('rejected_state') and all(b.get('code') == 4 for b in ndr['problems']):
+        stt = ndr['rejected_state']
+        prs = through_pairs(stt)
+        ok = bool(prs)
+        for a, b, i in prs:
+            ends = [q for q in (a, b) if q[1] == 4]
+            if not ends or not any(rects_touch(stt['nodes_x0y0x1y1'][q[0]], stt['nodes_x0y0x1y1'][i]) for q in ends):
+                ok = False
+        if ok:
+            return 'rare_segment_through_node:end_node_neighbour'
+        return None
+    # (a') the library's end-of-solve() intersection check fired, but every state the same scene reaches in the NDEBUG build (after every
+    #      operation and every layout iteration) satisfies the verified checker: transient (rate-limited by the caller)
+    if not bad and exc and 'NoIntersection' in exc and ndr and ndr.get('status') == 'ok' and not ndr.get('exception') \
+            and ndr.get('rejected_phase') is None and ndr.get('phases', 0) >= 2:
+        return 'rare_segment_through_node:transient'
+    # (b) state before the failing op: phase `op<opi-1>` (or `before`)
+    prev = 'before' if opi == 1 else 'op%d' % (opi - 1)
+    if prev not in names:
+        return None
+    cs = corridor_segments(phases[names.index(prev)])
+    if op[0] == 'MOVE':
+        cs = [c for c in cs if op[1] in c[1]]
+    if not cs:
+        return None
+    return 'lattice_corridor_tie'
 
 
 def run(tier):
@@ -329,11 +606,17 @@ def run(tier):
             if res.violation(o, fingerprint='rare_segment_through_node'):
                 lay_viol += 1
     lay['wall_s'] = round(lay['wall_s'], 1)
+    # ---------------------------------------------------------------- (V) lattice-aligned / pinch / resize scene families
+    scene_stats, scene_viol = run_scene_families(res, tier, rng.fork(), exe, spec_exe)
+    lay_viol += scene_viol
+    evals += scene_stats.get('checked_states', 0)
+    res.cov.update({'scene_families': scene_stats})
     res.cov.update({
         'evaluations': evals,
         'distinct_nontrivial': hist.get('tight', 0) + hist.get('den0', 0) + hist.get('negative', 0) + lay['bends_after'],
         'rule': 'TriConstraint cases: non-trivial = final position infeasible (branches tight / denominator 0 / negative quotient); '
-                'layout runs: non-trivial = bend points present after layout (each is a node corner an edge is wrapped round)',
+                'layout runs: non-trivial = bend points present after layout (each is a node corner an edge is wrapped round); scene families '
+                '(lattice / pinch / resize, explicit scenes): every state after an operation or layout iteration is an evaluation',
         'exhaustive': False, 'samples': samples, 'traces_validated_against_impl': evals,
         'tri_branch_histogram': hist, 'layout_stats': lay,
         'step_rule_violations': step_viol, 'layout_violations': lay_viol,
@@ -354,6 +637,7 @@ def replay(path):
 
 def warm():
     build_harness_retry('c13_topo', LIBS, 'exc')
+    build_harness_retry('c13_topo', LIBS, 'ndebug')
     C.ocaml_build('c13spec', 'C13spec.v', 'c13_spec_driver.ml', 'c13_spec.ml')
     C.ocaml_build('c13gen', 'C13gen.v', 'c13_gen_driver.ml', 'c13_gen.ml')
 
@@ -372,7 +656,8 @@ META = {
                 'every triangle constraint that held before a step holds after it, for any number of steps with arbitrary desired positions '
                 '(C13_step, C13_steps_partial).  PARTIAL for the property as a whole: completeness of the scan-line constraint constructor and the '
                 'bend split/merge surgery of satisfy() are not modelled; they are covered only by the verified checker run on real layout runs, '
-                'which DOES find rare failures on the unchanged tree (known finding rare_segment_through_node).',
+                'which DOES find rare failures on the unchanged tree (known finding rare_segment_through_node) and, on lattice-aligned node sets, '
+                'systematic failures at exact ties (known findings lattice_corridor_tie, rare_segment_through_node:end_node_neighbour).',
         'design_ref': 'DESIGN.md 5.13'},
     'level_note': 'Trusted: Coq kernel; cpp2v.py + clang JSON AST incl. the opaque-call mapping u->initialPos(scanDim) -> tc_u1 etc. (validated every run: compiled '
                   'TriConstraint objects built through the real constructor with real topology::Node / vpsc::Rectangle / vpsc::Variable objects vs extracted Gen vs '
@@ -381,6 +666,11 @@ META = {
                   '(topology_constraints.cpp:330-384 is not translated: it walks object graphs). V-run: seedable variant of libtopology/tests/beautify.cpp, '
                   'library assertions enabled as exceptions, every state after an iteration checked by the extracted checker (seg_clear: separating-axis '
                   'test proved sound; node overlap; endpoints; bends on corners turning round their node) with tolerance 2^-20. A run in which a segment '
-                  'ends up through a foreign node from a checker-valid previous state is classified as the known rare finding when at most 2 + runs/150 runs show it.',
+                  'ends up through a foreign node from a checker-valid previous state is classified as the known rare finding when at most 2 + runs/150 runs show it. '
+                  'Scene families (checks/c13lib.py; harness mode `scenes`, every scene in a forked child): lattice-aligned pinch / random lattice / resize scenes '
+                  'under random symmetries of the square, driven through ColaTopologyAddon::moveTo, ::handleResizes and ConstrainedFDLayout::run (PreIteration locks '
+                  'and cola::Resize), in an assertion build (an assertion of the library is a violation with fingerprint assert:<file>:<expr>) and, for the failing '
+                  'scenes, an NDEBUG build whose states go through the same extracted checker; known-finding classifiers are predicates on the state before the '
+                  'failing operation / on the violated NDEBUG state, plus one rate-limited residual class (2 + scenes/300).',
     'technique': 'Coq proof over cpp2v-regenerated Gallina + correspondence on dyadic/boundary inputs + verified checker on real layout runs',
 }
